@@ -22,6 +22,9 @@ def callList (tbl : List (Int × Char)) : PH := fun recv args =>
     | some 'v' => .int (id * 10 + argInt args)
     | some 'n' => .nil
     | some 'r' => .err "Err"
+    | some 's' => .err "StopIterErr"
+    | some 't' => .err "TypeErr"
+    | some 'z' => .err "ValueErr"
     | _ => .err "NoPropErr"
   | _ => .err "NoPropErr"
 
@@ -33,6 +36,9 @@ def callReduce (tbl : List (Int × Char)) : PH := fun acc args =>
     | some 'v' => accV (t * 10 + id + argInt rest)
     | some 'n' => .nil
     | some 'r' => .err "Err"
+    | some 's' => .err "StopIterErr"
+    | some 't' => .err "TypeErr"
+    | some 'z' => .err "ValueErr"
     | _ => .err "NoPropErr"
   | _, _ => .err "NoPropErr"
 
